@@ -257,6 +257,15 @@ def merge_operator_tokens(
             if pooled_token:
                 yield pooled_token
                 pooled_token = None
+            if (
+                token.kind is Token.Kind.OPERATOR
+                and symbols
+                and token.token[-1] in symbols
+            ):
+                # `token` ends with a mergeable symbol (e.g. "~+"), and so may
+                # still need to be merged with operators on its right.
+                pooled_token = token
+                continue
             yield token
             continue
 
